@@ -129,6 +129,10 @@ theorem open_literal_blocks_text (s : S) (h : s.lit.isSome = true) :
 
 /-! ### the behaviour before the repairs (Legacy), on the replay inputs -/
 
+/-- the events of a run without the ghost `dispatch` markers -/
+def visible (l : List Event) : List Event :=
+  l.filter fun e => match e with | .dispatch _ => false | _ => true
+
 /-- `d NOOP {12+}⏎e DELETE x⏎` in the authenticated state -/
 def discardedPayload : Framing.Bytes :=
   [100,32,78,79,79,80,32,123,49,50,43,125,13,10,101,32,68,69,76,69,84,69,32,120,13,10]
@@ -139,7 +143,7 @@ theorem legacy_discard_counterexample :
 
 /-- … the repaired server answers the command, says BYE and closes -/
 theorem discard_repaired :
-    serve { plus := false, preauth := true } discardedPayload
+    visible (serve { plus := false, preauth := true } discardedPayload)
       = [.tagged [100] .bad, .bye, .close] := by decide
 
 /-- `a APPEND m {104857601+}⏎b DELETE x⏎` in the authenticated state -/
@@ -152,7 +156,7 @@ theorem legacy_refused_counterexample :
     Event.exec ⟨.delete, [[120]]⟩ ∈ Legacy.serve false true refusedAppend := by decide
 
 theorem refused_repaired :
-    serve { plus := false, preauth := true } refusedAppend
+    visible (serve { plus := false, preauth := true } refusedAppend)
       = [.appendLit 104857601 false, .tagged [97] .no, .bye, .close] := by decide
 
 /-- `a LOGIN {5000}⏎` -/
@@ -162,11 +166,11 @@ def refusedSync : Framing.Bytes := [97,32,76,79,71,73,78,32,123,53,48,48,48,125,
     the first thing that happens is `eof` (the server is blocked reading; what follows `eof` is what
     it does once the client has gone) … -/
 theorem legacy_stall_counterexample :
-    (Legacy.serve false false refusedSync).head? = some .eof := by decide
+    (visible (Legacy.serve false false refusedSync)).head? = some .eof := by decide
 
 /-- … the repaired server answers NO at once and waits for the next command -/
 theorem stall_repaired :
-    serve { plus := false, preauth := false } refusedSync = [.tagged [97] .no, .eof, .close] := by decide
+    visible (serve { plus := false, preauth := false } refusedSync) = [.tagged [97] .no, .eof, .close] := by decide
 
 /-- `a APPEND m {3}⏎abcXYZ⏎` in the authenticated state -/
 def appendTrailing : Framing.Bytes :=
